@@ -362,6 +362,10 @@ func runHarness(l *Loaded, spec HarnessSpec, workers int, verbose bool, dumpDir 
 					if c.nestedErr != "" {
 						rep.Unsupported = append(rep.Unsupported, c.nestedErr)
 					}
+					if len(res) == 0 {
+						// every path of this case died on an assumption: the case checks nothing (vacuity guard)
+						rep.Undecided = append(rep.Undecided, "vacuous case (all paths infeasible): "+caseName(j.cases))
+					}
 				}()
 			}
 		}()
